@@ -1,6 +1,31 @@
 /-
   Property C17 — an incomplete game object is a faithful map coalition ↦ (known?, lower, upper).
   Theorems about ICG.Model.Table (the model of incomplete_cooperative/game.py).
+
+  "After any sequence of public value operations a coalition is known iff it was set or revealed and not
+  since unset or bulk-reset; a known coalition has lower = upper = its value and bulk bound setters never
+  alter it; the value of an unknown coalition is never returned as a value (error, None or NaN instead);
+  the empty coalition starts known with value 0.  Copies are independent of the original, and negation
+  swaps and negates the bounds, keeps knowledge and is an involution."
+
+  Shape of the development
+  * `Op α`, `applyOp`   : the public value operations and their effect on the model table (a raising call
+                          leaves the table as it was, except `set_known_values`, which leaves the
+                          re-initialised table — exactly what the model's `Except (Err × Table α)` carries)
+  * `Spec α`, `specStep`: the abstract "known map" coalition ↦ value, advanced WITHOUT looking at the table
+  * `Rel`               : the simulation relation;  `refines` / `refines_run` : it is preserved by every
+                          operation / history;  corollaries in the property's words below.
+  * all of it holds for every player count `n` and every value type with a `0` (no algebra is needed).
+
+  Scalar bound writes (`set_lower_bound` / `set_upper_bound`) write one cell without looking at the known
+  flag; applied to a *known* row they break `lower = upper`.  The property speaks about histories of
+  public *value* operations, so such a write is admitted only on a row that is unknown at that moment:
+  this is the side condition `Op.admissible` (a function of n, the spec and the operation only).
+
+  Copies: the model is functional — a table is a value, `copy()` is the identity and every operation
+  returns a new table, so independence of copies holds by construction (the aliasing question exists only
+  in the Python object and is checked there by the correspondence stream `corr_table`, which mutates one
+  of several live copies and dumps all of them).
 -/
 import ICG.Model.Table
 import Mathlib.Algebra.Group.Defs
@@ -10,6 +35,8 @@ namespace ICG.C17
 open ICG Table
 
 variable {α : Type}
+
+/-! ### seed theorems: the fresh table and negation -/
 
 /-- a fresh table knows exactly the empty coalition, with value 0 -/
 theorem fresh_known [Zero α] (n c : Nat) : (Table.init (α := α) n).known c = true ↔ c = 0 := by
@@ -34,5 +61,884 @@ theorem neg_neg [InvolutiveNeg α] (t : Table α) : t.neg.neg = t := by
   simp [Table.neg]
 
 example : ((Table.init (α := Int) 2).putValue 3 5).neg.neg.lo 3 = 5 := by decide
+
+/-! ### operations -/
+
+/-- the public value operations of `IncompleteCooperativeGame` (arguments as in the model) -/
+inductive Op (α : Type) where
+  | set (v : α) (c : Nat)                                       -- set_value
+  | unset (c : Nat)                                             -- unset_value
+  | reveal (v : α) (c : Nat)                                    -- reveal_value
+  | unreveal (c : Nat)                                          -- unreveal_value
+  | setValues (vals : List α) (cs : Option (List Nat))          -- set_values(values[, coalitions])
+  | setKnownValues (vals : List α) (cs : Option (List Nat))     -- set_known_values: bulk reset, then bulk set
+  | setBounds (upper : Bool) (vals : List α) (cs : Option (List Nat))   -- set_upper_bounds / set_lower_bounds
+  | setLowerBound (v : α) (c : Nat)                             -- set_lower_bound (admitted on unknown rows only)
+  | setUpperBound (v : α) (c : Nat)                             -- set_upper_bound (admitted on unknown rows only)
+
+/-- a raising call leaves the object as it was -/
+def keep (t : Table α) : Except Err (Table α) → Table α
+  | .ok t' => t'
+  | .error _ => t
+
+/-- the table after the call (whether it returned or raised) -/
+def applyOp [Zero α] (t : Table α) : Op α → Table α
+  | .set v c => keep t (t.setValue v c)
+  | .unset c => keep t (t.unsetValue c)
+  | .reveal v c => keep t (t.reveal v c)
+  | .unreveal c => keep t (t.unreveal c)
+  | .setValues vals cs => keep t (t.setValues vals cs)
+  | .setKnownValues vals cs =>
+    match t.setKnownValues vals cs with
+    | .ok t' => t'
+    | .error (_, t0) => t0
+  | .setBounds up vals cs => keep t (t.setBounds up vals cs)
+  | .setLowerBound v c => keep t (t.setLowerBound v c)
+  | .setUpperBound v c => keep t (t.setUpperBound v c)
+
+/-- the table after a history -/
+def run [Zero α] (t : Table α) (ops : List (Op α)) : Table α := ops.foldl applyOp t
+
+/-! ### the abstract spec: the known map -/
+
+/-- coalition ↦ its value if it is known -/
+abbrev Spec (α : Type) := Nat → Option α
+
+def Spec.put (s : Spec α) (c : Nat) (o : Option α) : Spec α := fun d => if d = c then o else s d
+
+/-- a new game knows exactly ∅ ↦ 0 -/
+def specInit [Zero α] : Spec α := fun c => if c = 0 then some 0 else none
+
+/-- bulk set on the spec; `none` = the call raises: the `np.fromiter` iterator is shorter than the value
+    count, an index is ≥ 2^n, or (without coalitions) the value vector has length ≠ 2^n and ≠ 1.
+    A longer iterator is truncated; repeated coalitions: the last write wins. -/
+def specSetValues (n : Nat) (s : Spec α) (vals : List α) : Option (List Nat) → Option (Spec α)
+  | some ids =>
+    if ids.length < vals.length then none
+    else if (ids.take vals.length).all (· < 2 ^ n) then
+      some (((ids.take vals.length).zip vals).foldl (fun s (p : Nat × α) => s.put p.1 (some p.2)) s)
+    else none
+  | none =>
+    if vals.length = 2 ^ n then some (fun d => if h : d < vals.length then some vals[d] else s d)
+    else match vals with
+      | [v] => some (fun d => if d < 2 ^ n then some v else s d)
+      | _ => none
+
+/-- one step of the spec; a function of `n`, the spec and the operation only -/
+def specStep [Zero α] (n : Nat) (s : Spec α) : Op α → Spec α
+  | .set v c => if c < 2 ^ n then s.put c (some v) else s
+  | .unset c => if c < 2 ^ n then s.put c none else s
+  | .reveal v c => if c < 2 ^ n then (if (s c).isSome then s else s.put c (some v)) else s
+  | .unreveal c => if c < 2 ^ n then (if (s c).isSome then s.put c none else s) else s
+  | .setValues vals cs => (specSetValues n s vals cs).getD s
+  | .setKnownValues vals cs => (specSetValues n specInit vals cs).getD specInit
+  | .setBounds _ _ _ => s
+  | .setLowerBound _ _ => s
+  | .setUpperBound _ _ => s
+
+def specRun [Zero α] (n : Nat) (s : Spec α) (ops : List (Op α)) : Spec α := ops.foldl (specStep n) s
+
+/-- side condition of the histories: a scalar bound write targets a row that is unknown at that moment
+    (or an id outside the game, where the call raises and nothing happens) -/
+def Op.admissible (n : Nat) (s : Spec α) : Op α → Bool
+  | .setLowerBound _ c => decide (2 ^ n ≤ c) || (s c).isNone
+  | .setUpperBound _ c => decide (2 ^ n ≤ c) || (s c).isNone
+  | _ => true
+
+def admissibleHist [Zero α] (n : Nat) (s : Spec α) : List (Op α) → Bool
+  | [] => true
+  | op :: ops => op.admissible n s && admissibleHist n (specStep n s op) ops
+
+/-- the simulation relation: on the rows of the game the known flag is "the spec has a value", and a known
+    row holds that value in both bound cells -/
+def Rel (t : Table α) (s : Spec α) : Prop :=
+  ∀ c, c < 2 ^ t.n → (t.known c = (s c).isSome) ∧ ∀ v, s c = some v → t.lo c = v ∧ t.hi c = v
+
+theorem rel_init [Zero α] (n : Nat) : Rel (Table.init (α := α) n) specInit := by
+  intro c _
+  by_cases h : c = 0 <;> simp [Table.init, specInit, h]
+
+/-! ### single-row lemmas -/
+
+theorem rel_putValue [Zero α] {t : Table α} {s : Spec α} (h : Rel t s) (c : Nat) (v : α) :
+    Rel (t.putValue c v) (s.put c (some v)) := by
+  intro d hd
+  have := h d hd
+  by_cases hdc : d = c <;> simp_all [Table.putValue, Spec.put]
+
+theorem rel_clearRow [Zero α] {t : Table α} {s : Spec α} (h : Rel t s) (c : Nat) :
+    Rel (t.clearRow c) (s.put c none) := by
+  intro d hd
+  have := h d hd
+  by_cases hdc : d = c <;> simp_all [Table.clearRow, Spec.put]
+
+/-- bulk write of values, row by row, on both sides -/
+theorem rel_foldl_putValue [Zero α] : ∀ (l : List (Nat × α)) {t : Table α} {s : Spec α}, Rel t s →
+    (l.foldl (fun t (p : Nat × α) => t.putValue p.1 p.2) t).n = t.n ∧
+    Rel (l.foldl (fun t (p : Nat × α) => t.putValue p.1 p.2) t)
+        (l.foldl (fun s (p : Nat × α) => s.put p.1 (some p.2)) s)
+  | [], _, _, h => ⟨rfl, h⟩
+  | p :: l, t, s, h => by
+    have ih := rel_foldl_putValue l (rel_putValue h p.1 p.2)
+    exact ⟨ih.1, ih.2⟩
+
+/-- `set_values` against the spec: it raises exactly when the spec says so, and otherwise refines it -/
+theorem setValues_spec [Zero α] {t : Table α} {s : Spec α} (h : Rel t s) (vals : List α) (cs : Option (List Nat)) :
+    match specSetValues t.n s vals cs with
+    | some s' => ∃ t', t.setValues vals cs = .ok t' ∧ t'.n = t.n ∧ Rel t' s'
+    | none => ∃ e, t.setValues vals cs = .error e := by
+  cases cs with
+  | some ids =>
+    by_cases hlen : ids.length < vals.length
+    · have hs : specSetValues t.n s vals (some ids) = none := by simp [specSetValues, hlen]
+      rw [hs]
+      exact ⟨.value, by simp [Table.setValues, Table.fromiter, hlen, bind, Except.bind]⟩
+    · by_cases hall : (ids.take vals.length).all (· < t.rows) = true
+      · have hall' : (ids.take vals.length).all (· < 2 ^ t.n) = true := hall
+        have hs : specSetValues t.n s vals (some ids) =
+            some (((ids.take vals.length).zip vals).foldl (fun s (p : Nat × α) => s.put p.1 (some p.2)) s) := by
+          simp only [specSetValues, hlen, if_false]
+          rw [if_pos hall']
+        rw [hs]
+        have := rel_foldl_putValue ((ids.take vals.length).zip vals) h
+        refine ⟨_, ?_, this.1, this.2⟩
+        simp only [Table.setValues, Table.fromiter, hlen, if_false, bind, Except.bind]
+        rw [if_pos hall]
+      · have hall' : ¬ (ids.take vals.length).all (· < 2 ^ t.n) = true := hall
+        have hs : specSetValues t.n s vals (some ids) = none := by
+          simp only [specSetValues, hlen, if_false]
+          rw [if_neg hall']
+        rw [hs]
+        refine ⟨.index, ?_⟩
+        simp only [Table.setValues, Table.fromiter, hlen, if_false, bind, Except.bind]
+        rw [if_neg hall]
+  | none =>
+    by_cases hlen : vals.length = 2 ^ t.n
+    · have hs : specSetValues t.n s vals none =
+          some (fun d => if h : d < vals.length then some vals[d] else s d) := by
+        simp only [specSetValues, hlen, if_true]
+      rw [hs]
+      have ht : t.setValues vals none = .ok
+          { t with known := fun d => if d < t.rows then true else t.known d,
+                   lo := fun d => if h : d < vals.length then vals[d] else t.lo d,
+                   hi := fun d => if h : d < vals.length then vals[d] else t.hi d } := by
+        simp only [Table.setValues, Table.rows, hlen, if_true]
+      refine ⟨_, ht, rfl, ?_⟩
+      intro d hd
+      have hd' : d < t.rows := hd
+      have hd'' : d < vals.length := by rw [hlen]; exact hd
+      simp [hd', hd'']
+    · match vals, hlen with
+      | [v], hlen =>
+        have hs : specSetValues t.n s [v] none = some (fun d => if d < 2 ^ t.n then some v else s d) := by
+          simp only [specSetValues, hlen, if_false]
+        rw [hs]
+        have ht : t.setValues [v] none = .ok
+            { t with known := fun d => if d < t.rows then true else t.known d,
+                     lo := fun d => if d < t.rows then v else t.lo d,
+                     hi := fun d => if d < t.rows then v else t.hi d } := by
+          simp only [Table.setValues, Table.rows, hlen, if_false]
+        refine ⟨_, ht, rfl, ?_⟩
+        intro d hd
+        have hd' : d < 2 ^ t.n := hd
+        have hd'' : d < t.rows := hd
+        simp [hd', hd'']
+      | [], hlen =>
+        have hs : specSetValues t.n s ([] : List α) none = none := by
+          simp only [specSetValues, hlen, if_false]
+        rw [hs]
+        exact ⟨.value, by simp only [Table.setValues, Table.rows, hlen, if_false]⟩
+      | _ :: _ :: _, hlen =>
+        rename_i a b l
+        have hs : specSetValues t.n s (a :: b :: l) none = none := by
+          simp only [specSetValues, hlen, if_false]
+        rw [hs]
+        exact ⟨.value, by simp only [Table.setValues, Table.rows, hlen, if_false]⟩
+
+/-! ### frames: what an operation cannot touch -/
+
+/-- `t'` has the player count of `t` and the same rows outside the game (ids ≥ 2^n) -/
+def Outside (t t' : Table α) : Prop :=
+  t'.n = t.n ∧ ∀ c, 2 ^ t.n ≤ c → t'.known c = t.known c ∧ t'.lo c = t.lo c ∧ t'.hi c = t.hi c
+
+/-- what a bound write may change: not `n`, not a flag, not a cell of a known row, no row outside the game -/
+def BoundsFrame (t t' : Table α) : Prop :=
+  t'.n = t.n ∧ t'.known = t.known ∧
+    ∀ c, (t.known c = true ∨ 2 ^ t.n ≤ c) → t'.lo c = t.lo c ∧ t'.hi c = t.hi c
+
+theorem Outside.refl (t : Table α) : Outside t t := ⟨rfl, fun _ _ => ⟨rfl, rfl, rfl⟩⟩
+theorem BoundsFrame.refl (t : Table α) : BoundsFrame t t := ⟨rfl, rfl, fun _ _ => ⟨rfl, rfl⟩⟩
+
+theorem BoundsFrame.outside {t t' : Table α} (h : BoundsFrame t t') : Outside t t' :=
+  ⟨h.1, fun c hc => ⟨by rw [h.2.1], h.2.2 c (Or.inr hc)⟩⟩
+
+theorem foldl_inv {β σ : Type} (P : σ → Prop) (f : σ → β → σ) :
+    ∀ (l : List β), (∀ s b, b ∈ l → P s → P (f s b)) → ∀ s0, P s0 → P (l.foldl f s0)
+  | [], _, _, h0 => h0
+  | b :: l, h, s0, h0 =>
+    foldl_inv P f l (fun s b' hb => h s b' (List.mem_cons_of_mem _ hb)) (f s0 b)
+      (h s0 b List.mem_cons_self h0)
+
+theorem outside_putValue [Zero α] {t t' : Table α} (h : Outside t t') {c : Nat} (hc : c < 2 ^ t.n) (v : α) :
+    Outside t (t'.putValue c v) := by
+  refine ⟨h.1, fun d hd => ?_⟩
+  have hne : d ≠ c := by omega
+  have := h.2 d hd
+  simpa [Table.putValue, hne] using this
+
+theorem outside_clearRow [Zero α] {t t' : Table α} (h : Outside t t') {c : Nat} (hc : c < 2 ^ t.n) :
+    Outside t (t'.clearRow c) := by
+  refine ⟨h.1, fun d hd => ?_⟩
+  have hne : d ≠ c := by omega
+  have := h.2 d hd
+  simpa [Table.clearRow, hne] using this
+
+/-- one bound cell of a row that is unknown and inside the game -/
+theorem boundsFrame_write {t t' : Table α} (h : BoundsFrame t t') (upper : Bool) {c : Nat}
+    (hk : t.known c = false) (hc : c < 2 ^ t.n) (v : α) :
+    BoundsFrame t (if upper then t'.putHi c v else t'.putLo c v) := by
+  obtain ⟨h1, h2, h3⟩ := h
+  cases upper
+  · refine ⟨h1, h2, fun d hd => ?_⟩
+    have hne : d ≠ c := by
+      rintro rfl; rcases hd with hd | hd
+      · rw [hk] at hd; cases hd
+      · omega
+    simpa [Table.putLo, hne] using h3 d hd
+  · refine ⟨h1, h2, fun d hd => ?_⟩
+    have hne : d ≠ c := by
+      rintro rfl; rcases hd with hd | hd
+      · rw [hk] at hd; cases hd
+      · omega
+    simpa [Table.putHi, hne] using h3 d hd
+
+/-- **bulk bound setters never alter a known coalition** (nor a flag, nor `n`, nor a row outside the game) -/
+theorem setBounds_frame {t t' : Table α} {upper : Bool} {vals : List α} {cs : Option (List Nat)}
+    (h : t.setBounds upper vals cs = .ok t') : BoundsFrame t t' := by
+  cases cs with
+  | some ids =>
+    simp only [Table.setBounds, Table.fromiter, bind, Except.bind] at h
+    by_cases hlen : ids.length < vals.length
+    · simp [hlen] at h
+    · simp only [hlen, if_false] at h
+      by_cases hall : (ids.take vals.length).all (· < t.rows) = true
+      · rw [if_pos hall] at h
+        injection h with h
+        subst h
+        refine foldl_inv (BoundsFrame t) _ _ ?_ t (BoundsFrame.refl t)
+        intro t'' p hp ht''
+        have hp1 : p.1 < t.rows := by
+          have := (List.of_mem_zip hp).1
+          simpa using (List.all_eq_true.mp hall) p.1 this
+        cases hk : t.known p.1
+        · simpa [hk] using boundsFrame_write ht'' upper hk hp1 p.2
+        · simpa [hk] using ht''
+      · rw [if_neg hall] at h; cases h
+  | none =>
+    simp only [Table.setBounds] at h
+    by_cases hlen : vals.length = t.rows
+    · simp only [hlen, if_true] at h
+      injection h with h
+      subst h
+      refine foldl_inv (BoundsFrame t) _ _ ?_ t (BoundsFrame.refl t)
+      intro t'' c hc ht''
+      have hc1 : c < t.rows := List.mem_range.mp hc
+      cases hk : t.known c
+      · cases hv : vals[c]? with
+        | none => simpa [hk, hv] using ht''
+        | some v => simpa [hk, hv] using boundsFrame_write ht'' upper hk hc1 v
+      · simpa [hk] using ht''
+    · simp only [hlen, if_false] at h
+      match vals, h with
+      | [v], h =>
+        injection h with h
+        subst h
+        refine foldl_inv (BoundsFrame t) _ _ ?_ t (BoundsFrame.refl t)
+        intro t'' c hc ht''
+        have hc1 : c < t.rows := List.mem_range.mp hc
+        cases hk : t.known c
+        · simpa [hk] using boundsFrame_write ht'' upper hk hc1 v
+        · simpa [hk] using ht''
+
+theorem rel_of_boundsFrame {t t' : Table α} {s : Spec α} (h : Rel t s) (hf : BoundsFrame t t') : Rel t' s := by
+  obtain ⟨h1, h2, h3⟩ := hf
+  intro c hc
+  rw [h1] at hc
+  obtain ⟨hk, hv⟩ := h c hc
+  refine ⟨by rw [h2]; exact hk, fun v hs => ?_⟩
+  have hkc : t.known c = true := by rw [hk, hs]; rfl
+  obtain ⟨hl, hh⟩ := h3 c (Or.inl hkc)
+  rw [hl, hh]; exact hv v hs
+
+/-! ### every operation refines the spec -/
+
+theorem outside_foldl_putValue [Zero α] {t : Table α} (l : List (Nat × α)) (hl : ∀ p ∈ l, p.1 < 2 ^ t.n) :
+    Outside t (l.foldl (fun t (p : Nat × α) => t.putValue p.1 p.2) t) :=
+  foldl_inv (Outside t) _ l (fun _ p hp ht => outside_putValue ht (hl p hp) p.2) t (Outside.refl t)
+
+/-- a successful `set_values` leaves `n` and the rows outside the game alone -/
+theorem setValues_outside [Zero α] {t t' : Table α} {vals : List α} {cs : Option (List Nat)}
+    (h : t.setValues vals cs = .ok t') : Outside t t' := by
+  cases cs with
+  | some ids =>
+    simp only [Table.setValues, Table.fromiter, bind, Except.bind] at h
+    by_cases hlen : ids.length < vals.length
+    · simp [hlen] at h
+    · simp only [hlen, if_false] at h
+      by_cases hall : (ids.take vals.length).all (· < t.rows) = true
+      · rw [if_pos hall] at h
+        injection h with h
+        subst h
+        refine outside_foldl_putValue _ fun p hp => ?_
+        have := (List.of_mem_zip hp).1
+        exact of_decide_eq_true ((List.all_eq_true.mp hall) p.1 this)
+      · rw [if_neg hall] at h; cases h
+  | none =>
+    simp only [Table.setValues] at h
+    by_cases hlen : vals.length = t.rows
+    · simp only [hlen, if_true] at h
+      injection h with h
+      subst h
+      refine ⟨rfl, fun d hd => ?_⟩
+      have h1 : ¬ d < t.rows := by simp only [Table.rows]; omega
+      simp [h1]
+    · simp only [hlen, if_false] at h
+      match vals, h with
+      | [v], h =>
+        injection h with h
+        subst h
+        refine ⟨rfl, fun d hd => ?_⟩
+        have h1 : ¬ d < t.rows := by simp only [Table.rows]; omega
+        simp [h1]
+
+theorem keep_cases (t : Table α) (r : Except Err (Table α)) :
+    (∃ t', r = .ok t' ∧ keep t r = t') ∨ (∃ e, r = .error e ∧ keep t r = t) := by
+  cases r with
+  | ok t' => exact Or.inl ⟨t', rfl, rfl⟩
+  | error e => exact Or.inr ⟨e, rfl, rfl⟩
+
+/-- **Refinement, one step**: every admissible operation — returning or raising — takes related
+    (table, spec) to related (table, spec) and keeps the player count. -/
+theorem refines [Zero α] {t : Table α} {s : Spec α} (h : Rel t s) (op : Op α)
+    (hadm : op.admissible t.n s = true) :
+    (applyOp t op).n = t.n ∧ Rel (applyOp t op) (specStep t.n s op) := by
+  have hrows : t.rows = 2 ^ t.n := rfl
+  cases op with
+  | set v c =>
+    by_cases hc : c < 2 ^ t.n
+    · have : applyOp t (.set v c) = t.putValue c v := by simp [applyOp, Table.setValue, hrows, hc, keep]
+      rw [this]; refine ⟨rfl, ?_⟩; simp only [specStep, hc, if_true]
+      exact rel_putValue h c v
+    · have : applyOp t (.set v c) = t := by simp [applyOp, Table.setValue, hrows, hc, keep]
+      rw [this]; refine ⟨rfl, ?_⟩; simp only [specStep, hc, if_false]
+      exact h
+  | unset c =>
+    by_cases hc : c < 2 ^ t.n
+    · have : applyOp t (.unset c) = t.clearRow c := by simp [applyOp, Table.unsetValue, hrows, hc, keep]
+      rw [this]; refine ⟨rfl, ?_⟩; simp only [specStep, hc, if_true]
+      exact rel_clearRow h c
+    · have : applyOp t (.unset c) = t := by simp [applyOp, Table.unsetValue, hrows, hc, keep]
+      rw [this]; refine ⟨rfl, ?_⟩; simp only [specStep, hc, if_false]
+      exact h
+  | reveal v c =>
+    by_cases hc : c < 2 ^ t.n
+    · have hk := (h c hc).1
+      cases hs : (s c).isSome
+      · have hk' : t.known c = false := by rw [hk, hs]
+        have : applyOp t (.reveal v c) = t.putValue c v := by
+          simp [applyOp, Table.reveal, hrows, hc, hk', keep]
+        rw [this]; refine ⟨rfl, ?_⟩; simp only [specStep, hc, if_true, hs]
+        exact rel_putValue h c v
+      · have hk' : t.known c = true := by rw [hk, hs]
+        have : applyOp t (.reveal v c) = t := by simp [applyOp, Table.reveal, hrows, hc, hk', keep]
+        rw [this]; refine ⟨rfl, ?_⟩; simp only [specStep, hc, if_true, hs]
+        exact h
+    · have : applyOp t (.reveal v c) = t := by simp [applyOp, Table.reveal, hrows, hc, keep]
+      rw [this]; refine ⟨rfl, ?_⟩; simp only [specStep, hc, if_false]
+      exact h
+  | unreveal c =>
+    by_cases hc : c < 2 ^ t.n
+    · have hk := (h c hc).1
+      cases hs : (s c).isSome
+      · have hk' : t.known c = false := by rw [hk, hs]
+        have : applyOp t (.unreveal c) = t := by simp [applyOp, Table.unreveal, hrows, hc, hk', keep]
+        rw [this]; refine ⟨rfl, ?_⟩; simp only [specStep, hc, if_true, hs]
+        exact h
+      · have hk' : t.known c = true := by rw [hk, hs]
+        have : applyOp t (.unreveal c) = t.clearRow c := by
+          simp [applyOp, Table.unreveal, hrows, hc, hk', keep]
+        rw [this]; refine ⟨rfl, ?_⟩; simp only [specStep, hc, if_true, hs]
+        exact rel_clearRow h c
+    · have : applyOp t (.unreveal c) = t := by simp [applyOp, Table.unreveal, hrows, hc, keep]
+      rw [this]; refine ⟨rfl, ?_⟩; simp only [specStep, hc, if_false]
+      exact h
+  | setValues vals cs =>
+    have key := setValues_spec h vals cs
+    simp only [applyOp, specStep]
+    cases hs : specSetValues t.n s vals cs with
+    | some s' =>
+      rw [hs] at key
+      obtain ⟨t', ht', hn, hr⟩ := key
+      rw [ht']; exact ⟨hn, hr⟩
+    | none =>
+      rw [hs] at key
+      obtain ⟨e, he⟩ := key
+      rw [he]; exact ⟨rfl, h⟩
+  | setKnownValues vals cs =>
+    have key := setValues_spec (rel_init (α := α) t.n) vals cs
+    have hn0 : (Table.init (α := α) t.n).n = t.n := rfl
+    rw [hn0] at key
+    simp only [applyOp, specStep, Table.setKnownValues]
+    cases hs : specSetValues t.n specInit vals cs with
+    | some s' =>
+      rw [hs] at key
+      obtain ⟨t', ht', hn, hr⟩ := key
+      rw [ht']; exact ⟨hn, hr⟩
+    | none =>
+      rw [hs] at key
+      obtain ⟨e, he⟩ := key
+      rw [he]; exact ⟨rfl, rel_init t.n⟩
+  | setBounds up vals cs =>
+    simp only [applyOp, specStep]
+    rcases keep_cases t (t.setBounds up vals cs) with ⟨t', ht', hk⟩ | ⟨e, _, hk⟩
+    · rw [hk]
+      have hf := setBounds_frame ht'
+      exact ⟨hf.1, rel_of_boundsFrame h hf⟩
+    · rw [hk]; exact ⟨rfl, h⟩
+  | setLowerBound v c =>
+    simp only [applyOp, specStep]
+    by_cases hc : c < 2 ^ t.n
+    · have hs : (s c).isNone = true := by
+        have : ¬ 2 ^ t.n ≤ c := by omega
+        simpa [Op.admissible, this] using hadm
+      have hk : t.known c = false := by
+        rw [(h c hc).1]; cases hsc : s c <;> simp_all
+      have : keep t (t.setLowerBound v c) = t.putLo c v := by simp [Table.setLowerBound, hrows, hc, keep]
+      rw [this]
+      have hf : BoundsFrame t (t.putLo c v) := by
+        simpa using boundsFrame_write (BoundsFrame.refl t) false hk hc v
+      exact ⟨hf.1, rel_of_boundsFrame h hf⟩
+    · have : keep t (t.setLowerBound v c) = t := by simp [Table.setLowerBound, hrows, hc, keep]
+      rw [this]; exact ⟨rfl, h⟩
+  | setUpperBound v c =>
+    simp only [applyOp, specStep]
+    by_cases hc : c < 2 ^ t.n
+    · have hs : (s c).isNone = true := by
+        have : ¬ 2 ^ t.n ≤ c := by omega
+        simpa [Op.admissible, this] using hadm
+      have hk : t.known c = false := by
+        rw [(h c hc).1]; cases hsc : s c <;> simp_all
+      have : keep t (t.setUpperBound v c) = t.putHi c v := by simp [Table.setUpperBound, hrows, hc, keep]
+      rw [this]
+      have hf : BoundsFrame t (t.putHi c v) := by
+        simpa using boundsFrame_write (BoundsFrame.refl t) true hk hc v
+      exact ⟨hf.1, rel_of_boundsFrame h hf⟩
+    · have : keep t (t.setUpperBound v c) = t := by simp [Table.setUpperBound, hrows, hc, keep]
+      rw [this]; exact ⟨rfl, h⟩
+
+/-! ### histories -/
+
+theorem run_nil [Zero α] (t : Table α) : run t [] = t := rfl
+theorem run_cons [Zero α] (t : Table α) (op : Op α) (ops : List (Op α)) :
+    run t (op :: ops) = run (applyOp t op) ops := rfl
+theorem specRun_cons [Zero α] (n : Nat) (s : Spec α) (op : Op α) (ops : List (Op α)) :
+    specRun n s (op :: ops) = specRun n (specStep n s op) ops := rfl
+
+/-- **Refinement, every history**: related states stay related along every admissible history. -/
+theorem refines_run [Zero α] : ∀ (ops : List (Op α)) {t : Table α} {s : Spec α}, Rel t s →
+    admissibleHist t.n s ops = true →
+    (run t ops).n = t.n ∧ Rel (run t ops) (specRun t.n s ops)
+  | [], _, _, h, _ => ⟨rfl, h⟩
+  | op :: ops, t, s, h, hadm => by
+    simp only [admissibleHist, Bool.and_eq_true] at hadm
+    obtain ⟨hn, hr⟩ := refines h op hadm.1
+    have ih := refines_run ops hr (by rw [hn]; exact hadm.2)
+    rw [hn] at ih
+    exact ih
+
+/-- the history of a new game on `n` players -/
+def game [Zero α] (n : Nat) (ops : List (Op α)) : Table α := run (Table.init n) ops
+
+/-- what the history says is known, and with which value -/
+def knownSpec [Zero α] (n : Nat) (ops : List (Op α)) : Spec α := specRun n specInit ops
+
+theorem game_rel [Zero α] (n : Nat) (ops : List (Op α)) (hadm : admissibleHist n (specInit (α := α)) ops = true) :
+    (game n ops).n = n ∧ Rel (game n ops) (knownSpec n ops) :=
+  refines_run ops (rel_init n) hadm
+
+/-- **known ⇔ history**: after any history of public value operations on a new game a coalition is known
+    iff the history (set / revealed and not since unset / bulk-reset: `knownSpec`) says so. -/
+theorem known_iff_history [Zero α] (n : Nat) (ops : List (Op α))
+    (hadm : admissibleHist n (specInit (α := α)) ops = true) (c : Nat) (hc : c < 2 ^ n) :
+    (game n ops).known c = true ↔ (knownSpec n ops c).isSome = true := by
+  obtain ⟨hn, hr⟩ := game_rel n ops hadm
+  rw [(hr c (by rw [hn]; exact hc)).1]
+
+/-- **a known coalition has lower = upper = its value** (the value the history gave it last) -/
+theorem known_has_value [Zero α] (n : Nat) (ops : List (Op α))
+    (hadm : admissibleHist n (specInit (α := α)) ops = true) (c : Nat) (hc : c < 2 ^ n)
+    (hk : (game n ops).known c = true) :
+    ∃ v, knownSpec n ops c = some v ∧ (game n ops).lo c = v ∧ (game n ops).hi c = v := by
+  obtain ⟨hn, hr⟩ := game_rel n ops hadm
+  obtain ⟨h1, h2⟩ := hr c (by rw [hn]; exact hc)
+  rw [h1] at hk
+  obtain ⟨v, hv⟩ := Option.isSome_iff_exists.mp hk
+  exact ⟨v, hv, h2 v hv⟩
+
+/-- **bulk bound setters never alter a known coalition**: all three cells of every known row (and every flag,
+    and `n`) are what they were — for every table, not only reachable ones. -/
+theorem bounds_setters_keep_known (t t' : Table α) (upper : Bool) (vals : List α) (cs : Option (List Nat))
+    (h : t.setBounds upper vals cs = .ok t') :
+    t'.n = t.n ∧ t'.known = t.known ∧ ∀ c, t.known c = true → t'.lo c = t.lo c ∧ t'.hi c = t.hi c :=
+  let hf := setBounds_frame h
+  ⟨hf.1, hf.2.1, fun c hc => hf.2.2 c (Or.inl hc)⟩
+
+/-! ### `n` and the rows outside the game -/
+
+theorem applyOp_n [Zero α] (t : Table α) (op : Op α) : (applyOp t op).n = t.n := by
+  cases op with
+  | set v c => simp only [applyOp, Table.setValue]; split <;> rfl
+  | unset c => simp only [applyOp, Table.unsetValue]; split <;> rfl
+  | reveal v c => simp only [applyOp, Table.reveal]; split <;> [split <;> rfl; rfl]
+  | unreveal c => simp only [applyOp, Table.unreveal]; split <;> [split <;> rfl; rfl]
+  | setValues vals cs =>
+    simp only [applyOp]
+    rcases keep_cases t (t.setValues vals cs) with ⟨t', ht', hk⟩ | ⟨e, _, hk⟩
+    · rw [hk]; exact (setValues_outside ht').1
+    · rw [hk]
+  | setKnownValues vals cs =>
+    simp only [applyOp, Table.setKnownValues]
+    cases hs : Table.setValues (Table.init (α := α) t.n) vals cs with
+    | ok t' => exact (setValues_outside hs).1
+    | error e => rfl
+  | setBounds up vals cs =>
+    simp only [applyOp]
+    rcases keep_cases t (t.setBounds up vals cs) with ⟨t', ht', hk⟩ | ⟨e, _, hk⟩
+    · rw [hk]; exact (setBounds_frame ht').1
+    · rw [hk]
+  | setLowerBound v c => simp only [applyOp, Table.setLowerBound]; split <;> rfl
+  | setUpperBound v c => simp only [applyOp, Table.setUpperBound]; split <;> rfl
+
+theorem run_n [Zero α] : ∀ (ops : List (Op α)) (t : Table α), (run t ops).n = t.n
+  | [], _ => rfl
+  | op :: ops, t => by rw [run_cons, run_n ops, applyOp_n]
+
+def Op.isReset : Op α → Bool
+  | .setKnownValues _ _ => true
+  | _ => false
+
+/-- every operation other than the bulk reset leaves the rows outside the game (ids ≥ 2^n) literally
+    untouched — whether it returns or raises, admissible or not -/
+theorem applyOp_outside [Zero α] (t : Table α) (op : Op α) (hop : op.isReset = false) :
+    Outside t (applyOp t op) := by
+  have hrows : t.rows = 2 ^ t.n := rfl
+  cases op with
+  | set v c =>
+    simp only [applyOp, Table.setValue]
+    split
+    · exact outside_putValue (Outside.refl t) (by rw [← hrows]; assumption) v
+    · exact Outside.refl t
+  | unset c =>
+    simp only [applyOp, Table.unsetValue]
+    split
+    · exact outside_clearRow (Outside.refl t) (by rw [← hrows]; assumption)
+    · exact Outside.refl t
+  | reveal v c =>
+    simp only [applyOp, Table.reveal]
+    split
+    · split
+      · exact Outside.refl t
+      · exact outside_putValue (Outside.refl t) (by rw [← hrows]; assumption) v
+    · exact Outside.refl t
+  | unreveal c =>
+    simp only [applyOp, Table.unreveal]
+    split
+    · split
+      · exact outside_clearRow (Outside.refl t) (by rw [← hrows]; assumption)
+      · exact Outside.refl t
+    · exact Outside.refl t
+  | setValues vals cs =>
+    simp only [applyOp]
+    rcases keep_cases t (t.setValues vals cs) with ⟨t', ht', hk⟩ | ⟨e, _, hk⟩
+    · rw [hk]; exact setValues_outside ht'
+    · rw [hk]; exact Outside.refl t
+  | setKnownValues vals cs => cases hop
+  | setBounds up vals cs =>
+    simp only [applyOp]
+    rcases keep_cases t (t.setBounds up vals cs) with ⟨t', ht', hk⟩ | ⟨e, _, hk⟩
+    · rw [hk]; exact (setBounds_frame ht').outside
+    · rw [hk]; exact Outside.refl t
+  | setLowerBound v c =>
+    simp only [applyOp, Table.setLowerBound]
+    split
+    · refine ⟨rfl, fun d hd => ?_⟩
+      have hne : d ≠ c := by have : c < 2 ^ t.n := by rw [← hrows]; assumption
+                             omega
+      simp [Table.putLo, keep, hne]
+    · exact Outside.refl t
+  | setUpperBound v c =>
+    simp only [applyOp, Table.setUpperBound]
+    split
+    · refine ⟨rfl, fun d hd => ?_⟩
+      have hne : d ≠ c := by have : c < 2 ^ t.n := by rw [← hrows]; assumption
+                             omega
+      simp [Table.putHi, keep, hne]
+    · exact Outside.refl t
+
+/-- rows outside the game are blank: unknown, both cells 0 (what `_init_values` leaves, functionally) -/
+def Blank [Zero α] (t : Table α) : Prop :=
+  ∀ c, 2 ^ t.n ≤ c → t.known c = false ∧ t.lo c = 0 ∧ t.hi c = 0
+
+theorem blank_init [Zero α] (n : Nat) : Blank (Table.init (α := α) n) := by
+  intro c hc
+  have : c ≠ 0 := by have := Nat.two_pow_pos n; simp only [Table.init] at hc; omega
+  simp [Table.init, this]
+
+theorem blank_of_outside [Zero α] {t t' : Table α} (hb : Blank t) (ho : Outside t t') : Blank t' := by
+  intro c hc
+  rw [ho.1] at hc
+  obtain ⟨h1, h2, h3⟩ := ho.2 c hc
+  obtain ⟨b1, b2, b3⟩ := hb c hc
+  exact ⟨by rw [h1, b1], by rw [h2, b2], by rw [h3, b3]⟩
+
+/-- no operation ever writes a row outside the game: `n` never changes and ids ≥ 2^n stay blank -/
+theorem applyOp_blank [Zero α] {t : Table α} (hb : Blank t) (op : Op α) : Blank (applyOp t op) := by
+  cases hop : op.isReset
+  · exact blank_of_outside hb (applyOp_outside t op hop)
+  · cases op with
+    | setKnownValues vals cs =>
+      simp only [applyOp, Table.setKnownValues]
+      cases hs : Table.setValues (Table.init (α := α) t.n) vals cs with
+      | ok t' => exact blank_of_outside (blank_init t.n) (setValues_outside hs)
+      | error e => exact blank_init t.n
+    | _ => cases hop
+
+theorem game_outside [Zero α] (n : Nat) (ops : List (Op α)) :
+    (game n ops).n = n ∧ ∀ c, 2 ^ n ≤ c →
+      (game n ops).known c = false ∧ (game n ops).lo c = 0 ∧ (game n ops).hi c = 0 := by
+  have hn : (game (α := α) n ops).n = n := run_n ops _
+  have hb : Blank (game (α := α) n ops) := by
+    unfold game
+    generalize hT : Table.init (α := α) n = t0
+    have hb0 : Blank t0 := hT ▸ blank_init n
+    clear hT hn
+    induction ops generalizing t0 with
+    | nil => exact hb0
+    | cons op ops ih => exact ih _ (applyOp_blank hb0 op)
+  exact ⟨hn, fun c hc => hb c (by rw [hn]; exact hc)⟩
+
+/-! ### getters: the value of an unknown coalition is never returned as a value -/
+
+theorem spec_of_known {t : Table α} {s : Spec α} (h : Rel t s) {c : Nat} (hc : c < 2 ^ t.n)
+    (hk : t.known c = true) : s c = some (t.lo c) ∧ s c = some (t.hi c) := by
+  obtain ⟨h1, h2⟩ := h c hc
+  rw [h1] at hk
+  obtain ⟨v, hv⟩ := Option.isSome_iff_exists.mp hk
+  obtain ⟨hl, hh⟩ := h2 v hv
+  rw [hl, hh]; exact ⟨hv, hv⟩
+
+theorem spec_of_unknown {t : Table α} {s : Spec α} (h : Rel t s) {c : Nat} (hc : c < 2 ^ t.n)
+    (hk : t.known c = false) : s c = none := by
+  have := (h c hc).1
+  rw [hk] at this
+  cases hs : s c with
+  | none => rfl
+  | some v => rw [hs] at this; cases this
+
+/-- `get_value`: the spec's value for a known coalition, `ValueError` for an unknown one, `IndexError`
+    outside the game — never a number for an unknown coalition -/
+theorem getValue_spec {t : Table α} {s : Spec α} (h : Rel t s) (c : Nat) :
+    t.getValue c =
+      if c < 2 ^ t.n then (match s c with | some v => .ok v | none => .error .value) else .error .index := by
+  have hrows : t.rows = 2 ^ t.n := rfl
+  by_cases hc : c < 2 ^ t.n
+  · cases hk : t.known c
+    · simp [Table.getValue, hrows, hc, hk, spec_of_unknown h hc hk]
+    · simp [Table.getValue, hrows, hc, hk, (spec_of_known h hc hk).1]
+  · simp [Table.getValue, hrows, hc]
+
+/-- `get_known_value`: exactly the spec (`None` for an unknown coalition) -/
+theorem getKnownValue_spec {t : Table α} {s : Spec α} (h : Rel t s) (c : Nat) :
+    t.getKnownValue c = if c < 2 ^ t.n then .ok (s c) else .error .index := by
+  have hrows : t.rows = 2 ^ t.n := rfl
+  by_cases hc : c < 2 ^ t.n
+  · cases hk : t.known c
+    · simp [Table.getKnownValue, hrows, hc, hk, spec_of_unknown h hc hk]
+    · simp [Table.getKnownValue, hrows, hc, hk, (spec_of_known h hc hk).1]
+  · simp [Table.getKnownValue, hrows, hc]
+
+/-- `get_known_values()`: the spec, row by row (NaN = `none` at unknown coalitions) -/
+theorem getKnownValues_spec {t : Table α} {s : Spec α} (h : Rel t s) :
+    t.getKnownValues = (List.range (2 ^ t.n)).map s := by
+  simp only [Table.getKnownValues, Table.rows]
+  apply List.map_congr_left
+  intro c hc
+  have hc' : c < 2 ^ t.n := List.mem_range.mp hc
+  cases hk : t.known c
+  · simp [spec_of_unknown h hc' hk]
+  · simp [(spec_of_known h hc' hk).2]
+
+/-- the shared core of `get_values`: numbers come back iff every requested coalition is known in the spec,
+    and then they are the spec's values -/
+theorem getValuesList_ok_iff {t : Table α} {s : Spec α} (h : Rel t s) (l : List Nat)
+    (hl : ∀ c ∈ l, c < 2 ^ t.n) (vs : List α) :
+    (if l.all t.known = true then Except.ok (l.map t.hi) else Except.error Err.value) = Except.ok vs ↔
+      l.map s = vs.map some := by
+  by_cases hall : l.all t.known = true
+  · rw [if_pos hall]
+    have hk : ∀ c ∈ l, t.known c = true := List.all_eq_true.mp hall
+    have hmap : l.map s = (l.map t.hi).map some := by
+      rw [List.map_map]
+      exact List.map_congr_left fun c hc => (spec_of_known h (hl c hc) (hk c hc)).2
+    rw [hmap]
+    constructor
+    · intro heq; injection heq with heq; rw [heq]
+    · intro heq
+      rw [(List.map_inj_right (fun x y hxy => Option.some.inj hxy)).mp heq]
+  · rw [if_neg hall]
+    constructor
+    · intro heq; cases heq
+    · intro heq
+      exfalso
+      apply hall
+      rw [List.all_eq_true]
+      intro c hc
+      have : s c ∈ vs.map some := heq ▸ List.mem_map_of_mem hc
+      obtain ⟨v, _, hv⟩ := List.mem_map.mp this
+      cases hk : t.known c
+      · rw [spec_of_unknown h (hl c hc) hk] at hv; cases hv
+      · rfl
+
+/-- `get_values(coalitions)` -/
+theorem getValues_some_spec {t : Table α} {s : Spec α} (h : Rel t s) (ids : List Nat)
+    (hl : ∀ c ∈ ids, c < 2 ^ t.n) (vs : List α) :
+    t.getValues (some ids) = .ok vs ↔ ids.map s = vs.map some := by
+  have hall : ids.all (· < t.rows) = true := by
+    rw [List.all_eq_true]; intro c hc; exact decide_eq_true (hl c hc)
+  simp only [Table.getValues]
+  rw [if_pos hall]
+  exact getValuesList_ok_iff h ids hl vs
+
+/-- an unknown coalition among the requested ones: `ValueError`, no numbers -/
+theorem getValues_some_unknown {t : Table α} {s : Spec α} (h : Rel t s) (ids : List Nat)
+    (hl : ∀ c ∈ ids, c < 2 ^ t.n) (c : Nat) (hc : c ∈ ids) (hs : s c = none) :
+    t.getValues (some ids) = .error .value := by
+  have hall : ids.all (· < t.rows) = true := by
+    rw [List.all_eq_true]; intro c hc; exact decide_eq_true (hl c hc)
+  have hk : ¬ ids.all t.known = true := by
+    intro hk
+    have := (spec_of_known h (hl c hc) (List.all_eq_true.mp hk c hc)).1
+    rw [hs] at this; cases this
+  simp only [Table.getValues]
+  rw [if_pos hall, if_neg hk]
+
+/-- `get_values()` of the whole game -/
+theorem getValues_none_spec {t : Table α} {s : Spec α} (h : Rel t s) (vs : List α) :
+    t.getValues none = .ok vs ↔ (List.range (2 ^ t.n)).map s = vs.map some := by
+  simp only [Table.getValues]
+  exact getValuesList_ok_iff h (List.range t.rows) (fun c hc => List.mem_range.mp hc) vs
+
+theorem getValues_none_unknown {t : Table α} {s : Spec α} (h : Rel t s) (c : Nat) (hc : c < 2 ^ t.n)
+    (hs : s c = none) : t.getValues none = .error .value := by
+  have hk : ¬ (List.range t.rows).all t.known = true := by
+    intro hk
+    have := (spec_of_known h hc (List.all_eq_true.mp hk c (List.mem_range.mpr hc))).1
+    rw [hs] at this; cases this
+  simp only [Table.getValues]
+  rw [if_neg hk]
+
+/-! ### negation commutes with the spec -/
+
+/-- the negated game knows the same coalitions, with negated values -/
+theorem rel_neg [Neg α] {t : Table α} {s : Spec α} (h : Rel t s) :
+    Rel t.neg (fun c => (s c).map Neg.neg) := by
+  intro c hc
+  obtain ⟨h1, h2⟩ := h c hc
+  refine ⟨by simp only [Option.isSome_map]; exact h1, fun v hv => ?_⟩
+  obtain ⟨w, hw, rfl⟩ := Option.map_eq_some_iff.mp hv
+  obtain ⟨hl, hh⟩ := h2 w hw
+  exact ⟨by show - t.hi c = - w; rw [hh], by show - t.lo c = - w; rw [hl]⟩
+
+/-! ### the spec in the property's words -/
+
+section words
+variable [Zero α] (n : Nat) (s : Spec α)
+
+/-- set: the coalition is known with that value; nobody else changes -/
+theorem specStep_set_same {c : Nat} (hc : c < 2 ^ n) (v : α) : specStep n s (.set v c) c = some v := by
+  simp [specStep, hc, Spec.put]
+theorem specStep_set_other {c d : Nat} (h : d ≠ c) (v : α) : specStep n s (.set v c) d = s d := by
+  simp only [specStep]; split <;> simp [Spec.put, h]
+/-- unset: the coalition is unknown; nobody else changes -/
+theorem specStep_unset_same {c : Nat} (hc : c < 2 ^ n) : specStep n s (.unset c) c = none := by
+  simp [specStep, hc, Spec.put]
+theorem specStep_unset_other {c d : Nat} (h : d ≠ c) : specStep n s (.unset c) d = s d := by
+  simp only [specStep]; split <;> simp [Spec.put, h]
+/-- reveal of an unknown coalition sets it; reveal of a known one raises and changes nothing -/
+theorem specStep_reveal_unknown {c : Nat} (hc : c < 2 ^ n) (hs : s c = none) (v : α) :
+    specStep n s (.reveal v c) c = some v := by
+  simp [specStep, hc, hs, Spec.put]
+theorem specStep_reveal_known {c : Nat} (hs : (s c).isSome = true) (v : α) : specStep n s (.reveal v c) = s := by
+  simp only [specStep, hs]; split <;> rfl
+/-- un-reveal of a known coalition forgets it; un-reveal of an unknown one raises and changes nothing -/
+theorem specStep_unreveal_known {c : Nat} (hc : c < 2 ^ n) (hs : (s c).isSome = true) :
+    specStep n s (.unreveal c) c = none := by
+  simp [specStep, hc, hs, Spec.put]
+theorem specStep_unreveal_unknown {c : Nat} (hs : s c = none) : specStep n s (.unreveal c) = s := by
+  simp only [specStep, hs]; split <;> rfl
+/-- bound writes never change what is known -/
+theorem specStep_bounds (up : Bool) (vals : List α) (cs : Option (List Nat)) :
+    specStep n s (.setBounds up vals cs) = s := rfl
+theorem specStep_scalar_bounds (v : α) (c : Nat) :
+    specStep n s (.setLowerBound v c) = s ∧ specStep n s (.setUpperBound v c) = s := ⟨rfl, rfl⟩
+/-- the bulk reset forgets the whole past: it is the bulk set applied to a new game (also when it raises) -/
+theorem specStep_reset (vals : List α) (cs : Option (List Nat)) :
+    specStep n s (.setKnownValues vals cs) = specStep n specInit (.setValues vals cs) := rfl
+/-- bulk set of the whole game: every coalition becomes known -/
+theorem specStep_setAll {vals : List α} (hlen : vals.length = 2 ^ n) {c : Nat} (hc : c < 2 ^ n) :
+    specStep n s (.setValues vals none) c = vals[c]? := by
+  simp [specStep, specSetValues, hlen, hc]
+/-- listed bulk set: a coalition that is not listed keeps its state -/
+theorem specStep_setListed_other (vals : List α) (ids : List Nat) {d : Nat} (hd : d ∉ ids) :
+    specStep n s (.setValues vals (some ids)) d = s d := by
+  simp only [specStep, specSetValues]
+  split
+  · rfl
+  · split
+    · simp only [Option.getD_some]
+      have hd' : ∀ p ∈ (ids.take vals.length).zip vals, d ≠ p.1 := by
+        intro p hp heq
+        exact hd (heq ▸ List.mem_of_mem_take (List.of_mem_zip hp).1)
+      exact foldl_inv (fun s' : Spec α => s' d = s d) _ _
+        (fun s' p hp hs' => by simp only [Spec.put, if_neg (hd' p hp)]; exact hs') s rfl
+    · rfl
+
+end words
+
+/-! ### a concrete history (2 players) -/
+
+deriving instance DecidableEq for Except
+
+/-- set, reveal, a raising reveal, a bulk bound write, a scalar bound write on an unknown row, unset,
+    a listed bulk set with a repeated coalition and a surplus id, a raising bulk set (short iterator),
+    an out-of-range set -/
+def demo : List (Op Int) :=
+  [.set 5 3, .reveal 2 1, .reveal 9 1, .setBounds true [7, 7, 7, 7] none, .setLowerBound 1 2, .unset 3,
+   .setValues [4, 6] (some [2, 2, 1]), .setValues [1, 1] (some [3]), .set 8 4]
+
+example : admissibleHist 2 specInit demo = true := by decide
+example : (List.range 4).map (knownSpec 2 demo) = [some 0, some 2, some 6, none] := by decide
+example : (game 2 demo).getKnownValues = [some 0, some 2, some 6, none] := by decide
+example : (game 2 demo).getLowerBounds = [0, 2, 6, 0] ∧ (game 2 demo).getUpperBounds = [0, 2, 6, 0] := by decide
+example : (game 2 demo).getValue 3 = .error .value ∧ (game 2 demo).getValue 2 = .ok 6 := by decide
+/-- the bulk reset forgets everything, also when it raises (index 9 is outside the game) -/
+example : (game 2 (demo ++ [.setKnownValues [1] (some [9])])).getKnownValues = [some 0, none, none, none] := by
+  decide
+example : (game 2 (demo ++ [.setKnownValues [1, 3] (some [3, 1])])).getKnownValues
+    = [some 0, some 3, none, some 1] := by decide
+/-- the side condition matters: a scalar bound write on a known row breaks `lower = upper` -/
+example : (game 2 [.set 5 3, .setLowerBound 1 3]).getLowerBounds = [0, 0, 0, 1] ∧
+    (game 2 [.set 5 3, .setLowerBound 1 3]).getUpperBounds = [0, 0, 0, 5] ∧
+    admissibleHist 2 specInit ([.set 5 3, .setLowerBound 1 3] : List (Op Int)) = false := by decide
 
 end ICG.C17
